@@ -10,6 +10,7 @@ from openhtf.core import base_plugs
 from openhtf.core import diagnoses_lib
 from openhtf.util import threads as htf_threads
 from simkit import core
+from workloads import logshapes
 
 
 class R(htf.DiagResultEnum):
@@ -105,6 +106,8 @@ def run_body(ctx, name, test, plugs):
       test.measurements[mname] = val
     for i in range(beh.get('logs', 0)):
       test.logger.info('%slog %s inv%d #%d', ctx.tag, name, inv, i)
+    for i, shape in enumerate(beh.get('xlogs', ())):
+      logshapes.emit(test.logger, shape, inv * 10 + i)
     for i in range(beh.get('attach', 0)):
       test.attach('att_%s_%d_%d' % (name, inv, i), ('data-%s-%d' % (name, i)).encode())
     if beh.get('dut'):
@@ -235,6 +238,8 @@ class _ScriptedPlug(base_plugs.BasePlug, metaclass=_NameHashMeta):
     ctx = self.ctx
     cfg = ctx.plug_cfg.get(type(self).__name__, {})
     ctx.ev('plug_td_start', type(self).__name__, self.serial)
+    if cfg.get('td_log'):
+      self.logger.info('%std log %s', ctx.tag, type(self).__name__)
     td = cfg.get('teardown', 'ok')
     if td == 'raise':
       ctx.ev('plug_td_raise', type(self).__name__, self.serial)
